@@ -104,9 +104,9 @@ class Gen:
             c = 'foreign %d %s' % (r.randint(0, 1), c)
         return c
     def srckey(self):
-        r = self.r; k = r.choice(['fd', 'tmr', 'tmr', 'sgn', 'path', 'thresh', 'task'])
+        r = self.r; k = r.choice(['fd', 'tmr', 'tmr', 'sgn', 'path', 'thresh', 'task', 'pid'])
         key = {'fd': None, 'tmr': r.choice(TMR_KEYS + [0]), 'sgn': r.choice(SIGS + [0]),
-               'path': r.randint(0, 4), 'thresh': r.choice([0, 2000000001, 2000000002]), 'task': r.randint(1, 3)}[k]
+               'path': r.randint(0, 4), 'thresh': r.choice([0, 2000000001, 2000000002]), 'task': r.randint(1, 3), 'pid': r.randint(0, 3)}[k]
         return k, key
     def fd_of(self, m):
         # each module has its own descriptors: one descriptor cannot be polled twice by one context
@@ -125,14 +125,15 @@ class Gen:
         ac = 0
         if k == 'fd' and r.random() < 0.25 and self.fresh_fd < 16:
             key = self.fresh_fd; self.fresh_fd += 1; ac = 1
-        return 'srcreg %d %s %d %d %d %d %d' % (m, k, key, p, 1 if r.random() < 0.25 else 0, ac, r.randint(1, 99))
+        one = 1 if (r.random() < 0.25 or (k == 'pid' and r.random() < 0.9)) else 0       # a dead process keeps its descriptor readable: mostly one-shot
+        return 'srcreg %d %s %d %d %d %d %d' % (m, k, key, p, one, ac, r.randint(1, 99))
     def env(self):
         r = self.r; x = r.random()
         regs = [c.split() for p in self.procs.values() for c in p if c.startswith('srcreg')]
         if regs and x < 0.7:
             t = r.choice(regs)
             if t[2] == 'fd': return 'fdwrite %s' % t[3]
-            if t[2] in ('tmr', 'sgn', 'task') and t[3] != '0': return 'fire %s %s %s' % (t[1], t[2], t[3])
+            if t[2] in ('tmr', 'sgn', 'task', 'path', 'pid') and t[3] != '0': return 'fire %s %s %s' % (t[1], t[2], t[3])
         if x < 0.5: return 'fdwrite %d' % r.randint(0, 9)
         if x < 0.75: return 'fire %d tmr %d' % (self.m(), r.choice(TMR_KEYS + BATCH_NS + [1000000000, 500000000, 200000000, 1000000]))
         if x < 0.9: return 'fire %d sgn %d' % (self.m(), r.choice(SIGS))
@@ -231,10 +232,10 @@ def gen_sources_case(rng, P):
     regs = []
     for m in range(g.nm):
         for _ in range(rng.randint(1, 4)):
-            k = rng.choice(['fd', 'fd', 'tmr', 'sgn', 'task'])
-            key = {'fd': g.fd_of(m), 'tmr': rng.choice(TMR_KEYS), 'sgn': rng.choice(SIGS), 'task': rng.randint(1, 3)}[k]
+            k = rng.choice(['fd', 'fd', 'tmr', 'sgn', 'task', 'path', 'pid'])
+            key = {'fd': g.fd_of(m), 'tmr': rng.choice(TMR_KEYS), 'sgn': rng.choice(SIGS), 'task': rng.randint(1, 3), 'path': rng.randint(1, 4), 'pid': rng.randint(1, 3)}[k]
             if k == 'sgn' and g.sig_owner.setdefault(key, m) != m: continue
-            one = 1 if rng.random() < 0.3 else 0
+            one = 1 if (rng.random() < 0.3 or (k == 'pid' and rng.random() < 0.9)) else 0
             prog.append('srcreg %d %s %d %d %d 0 %d' % (m, k, key, rng.choice([0, 0, 3]) if k == 'fd' else rng.choice([0, 1, 2, 3]), one, rng.randint(1, 99)))
             regs.append((m, k, key))
     handler_procs = []
